@@ -92,7 +92,22 @@ def readFields (check : Bool) (g : GeneRef) : List (List Iv × Strand) → Canon
     let rs := readFields check g qs r.2
     (ofOpt ofStr r.1 :: rs.1, rs.2)
 
+def jPModel (j : Json) : Except String (PModel × Option RefAttrs) := do
+  pure ({ geneId := ← jStr (← arg j "gene_id"), transcriptId := ← jStr (← arg j "transcript_id"),
+          exons := ← jIvList (← arg j "exons"), strand := ← jStrand (← arg j "strand"),
+          info := ← jList (jPair jStr jStr) (← arg j "info") },
+        ← jOpt (jList (jPair jStr (jList jStr))) (← arg j "ref"))
+
+def ofAttrList (l : AttrList) : Json := ofList (fun e => Json.arr #[ofStr e.1, ofStr e.2]) l
+
 def ops : List (String × Handler) := [
+  ("attr_tables", fun _ => pure (Json.mkObj [
+      ("gene_skip", ofList ofStr GENE_ATTR_SKIP), ("transcript_skip", ofList ofStr TRANSCRIPT_ATTR_SKIP),
+      ("exon_skip", ofList ofStr EXON_ATTR_SKIP), ("canonical_key", ofStr CANONICAL_KEY), ("exons_key", ofStr EXONS_KEY)])),
+  ("attr_lines", fun j => do
+      let g ← jGeneRef j
+      let r := printStorage TRANSCRIPT_ATTR_SKIP (← jBool (← arg j "check")) g (← jList jPModel (← arg j "models")) []
+      pure (Json.mkObj [("out", ofList ofAttrList r.1), ("memo", ofCanonMemo r.2)])),
   ("tables", fun _ => pure (Json.mkObj [("fwd", ofList ofSite fwdSites), ("rev", ofList ofSite revSites)])),
   ("site_raw", fun j => do
       pure (ofSite (siteRaw (← jSeq (← arg j "seq")) (← jInt (← arg j "start")) (← jIv (← arg j "intron"))))),
